@@ -314,7 +314,7 @@ Qed.
 Definition no_close (k : nat) (t : trace) : Prop := forall how o, ~ In (Close k how, o) t.
 
 Lemma no_close_snoc k t x : no_close k (t ++ [x]) -> no_close k t.
-Proof. intros H o Hin. apply (H o). apply in_or_app. auto. Qed.
+Proof. intros H how o Hin. apply (H how o). apply in_or_app. auto. Qed.
 
 Lemma session_live s tr : reach s tr ->
   forall t1 t2 k c a, tr = t1 ++ srv k c a :: t2 -> modes c = MSession -> no_close k t2 ->
